@@ -91,6 +91,18 @@ def main():
                 for idx, desc, kind in sites(fn):
                     cands.append((modfile, cls.name if cls else None, fn.name, idx, desc, kind, sorted(props)))
     random.Random(seed).shuffle(cands)
+    if '--retest' in sys.argv:
+        # re-run exactly the mutants that were not killed in earlier result files
+        want = set()
+        for f in sys.argv[sys.argv.index('--retest') + 1:]:
+            if f.startswith('--'):
+                break
+            for l in open(f):
+                d = json.loads(l)
+                if d['verdict'] != 'killed':
+                    want.add((d['file'], d['cls'], d['func'], d['desc']))
+        cands = [c for c in cands if (c[0], c[1], c[2], c[4]) in want]
+        mx = len(cands)
     done = set()
     if os.path.exists(out):
         for l in open(out):
